@@ -28,7 +28,8 @@ CHUNK = 10
 # ---------------------------------------------------------------------------------------------
 # object family
 
-FEATURES = ["tie", "slur", "tuplet", "grace", "repeat", "volta", "nav", "two_parts", "div_change", "staff2", "pickup", "dirs"]
+FEATURES = ["tie", "slur", "tuplet", "grace", "repeat", "volta", "nav", "two_parts", "div_change", "staff2", "pickup", "dirs",
+            "overlap", "chord_unequal"]
 
 
 def score_spec(feats):
@@ -73,6 +74,12 @@ def score_spec(feats):
     # bar 3: chord G4+B4(b) half, second voice rest
     objs.append({"k": "note", "s": b2, "e": b2 + 8, "id": "n6", "step": "G", "oct": 4, "voice": 1, "staff": 1, "sym": {"type": "half"}})
     objs.append({"k": "note", "s": b2, "e": b2 + 8, "id": "n7", "step": "B", "oct": 4, "alter": -1, "voice": 1, "staff": 1, "sym": {"type": "half"}})
+    if "overlap" in f:
+        # a note still sounding at the next onset of its own voice (the exporters must re-voice it on the fly)
+        objs.append({"k": "note", "s": b0 + 2, "e": b0 + 6, "id": "o1", "step": "E", "oct": 5, "voice": 1, "staff": 1, "sym": {"type": "quarter"}})
+    if "chord_unequal" in f:
+        # same onset and voice as n3 but another duration
+        objs.append({"k": "note", "s": b1, "e": b1 + 8, "id": "c1", "step": "A", "oct": 5, "voice": 1, "staff": 1, "sym": {"type": "half"}})
     if "staff2" in f:
         objs.append({"k": "clef", "s": 0, "staff": 2, "sign": "F", "line": 4, "oct": 0})
         objs.append({"k": "note", "s": b0, "e": b0 + 8, "id": "l1", "step": "C", "oct": 3, "voice": 2, "staff": 2, "sym": {"type": "half"}})
@@ -488,9 +495,88 @@ def eval_iter(case):
     return res
 
 
+def eval_container(case):
+    """len / indexing / iteration agree (same objects, same order) on scores however they were made."""
+    import copy
+    import partitura.score as S
+    import partitura.performance as P
+    from partitura.utils.music import transpose
+
+    res = CaseResult(states=0, transitions=0, traces=1)
+    how = case["how"]
+    base = ir.build_score(score_spec(case["feats"]))
+    parts = list(base.parts)
+    objs = {}
+
+    def mk(name, fn):
+        res.transitions += 1
+        try:
+            objs[name] = fn()
+        except Exception as e:  # noqa: construction problems are other properties' business
+            objs[name] = None
+
+    if how == "constructed":
+        fresh = lambda: ir.build_score(score_spec(case["feats"])).parts
+        mk("list", lambda: S.Score(list(fresh())))
+        mk("tuple", lambda: S.Score(tuple(fresh())))
+        mk("generator", lambda: S.Score(p for p in fresh()))
+        mk("iterator", lambda: S.Score(iter(fresh())))
+        mk("single-part", lambda: S.Score(fresh()[0]))
+        mk("structure", lambda: base)
+    elif how == "derived":
+        mk("unfold_maximal", lambda: S.unfold_part_maximal(base))
+        mk("unfold_minimal", lambda: S.unfold_part_minimal(base))
+        mk("transpose", lambda: transpose(base, S.Interval(2, "M")))
+        mk("deepcopy", lambda: copy.deepcopy(base))
+    elif how == "setitem":
+        def f():
+            sc = ir.build_score(score_spec(case["feats"]))
+            other = ir.build_score(score_spec(case["feats"])).parts
+            for i in range(len(sc)):
+                sc[i] = other[i]
+            return sc
+        mk("setitem", f)
+    elif how == "performance":
+        pf = build_perf(perf_spec("two"))
+        mk("performance", lambda: pf)
+        def g():
+            p2 = build_perf(perf_spec("two"))
+            q = build_perf(perf_spec("two"))
+            p2[0] = q[1]
+            return p2
+        mk("performance-setitem", g)
+    for name, sc in objs.items():
+        if sc is None:
+            continue
+        res.states += 1
+        try:
+            n = len(sc)
+            by_index = [sc[i] for i in range(n)]
+            by_iter = [p for p in sc]
+            by_list = list(sc)
+            flat = sc.parts if hasattr(sc, "parts") else sc.performedparts
+            res.transitions += 4
+        except Exception as e:  # noqa
+            res.fail("container-protocol", kind="exception", where=innermost_partitura_frame(e), observed=exc_text(e), detail="%s %r" % (name, case))
+            continue
+        same = (len(by_iter) == n and len(by_list) == n and len(flat) == n
+                and all(a is b for a, b in zip(by_index, by_iter)) and all(a is b for a, b in zip(by_index, by_list))
+                and all(a is b for a, b in zip(by_index, flat)))
+        if not same:
+            res.fail("container-protocol", expected="len, indexing, iteration and the flat part list designate the same %d objects in the same order" % n,
+                     observed=dict(len=n, by_index=[getattr(p, "id", None) for p in by_index], by_iter=[getattr(p, "id", None) for p in by_iter],
+                                   identical_objects=bool(len(by_iter) == n and all(a is b for a, b in zip(by_index, by_iter)))),
+                     where="%s.__iter__/__getitem__/__len__" % type(sc).__name__, detail="%s %r" % (name, case))
+    res.states = max(res.states, 1)
+    res.outcome = "container:%s:%d" % (how, len([o for o in objs.values() if o is not None]))
+    return res
+
+
 def eval_case(case):
     if case["kind"] == "iter":
         return eval_iter(case)
+    if case["kind"] == "container":
+        return eval_container(case)
     return eval_seq(case)
 
 
@@ -503,7 +589,7 @@ def feature_sets(tier):
     return sets, pairs
 
 
-PAIR_BASES = [["tie", "slur", "grace", "dirs"], ["repeat", "tuplet"], ["volta", "two_parts", "pickup"], ["nav", "repeat", "staff2"],
+PAIR_BASES = [["tie", "slur", "grace", "dirs", "overlap", "chord_unequal"], ["repeat", "tuplet"], ["volta", "two_parts", "pickup"], ["nav", "repeat", "staff2"],
               ["div_change", "tie", "tuplet"], ["two_parts", "div_change", "grace", "volta"]]
 
 
@@ -535,6 +621,11 @@ def spaces(tier, seed):
         if tier == "thorough":
             it.append(dict(kind="iter", container=kind, n=4, k=2))
             it.append(dict(kind="iter", container=kind, n=3, k=3, maxp=4))
+    cc = [dict(kind="container", how=h, feats=f) for f in ([], ["two_parts"], ["two_parts", "repeat"], ["two_parts", "volta", "nav"], ["repeat", "staff2"])
+          for h in ("constructed", "derived", "setitem")] + [dict(kind="container", how="performance", feats=[])]
+    sp.append(Space("container-consistency", cc, True,
+                    "scores built from list/tuple/generator/iterator/single part/part group, derived by unfolding, transposing, deep copy, "
+                    "changed by item assignment; performances: len, indexing, iteration and the flat list designate the same objects"))
     sp.append(Space("iteration-interleavings", it, True,
                     "k clients x n parts, all interleavings (n=3,k=3: <=4 preemptions); plus nested loops and len/index/list agreement"))
     return sp
